@@ -151,6 +151,9 @@ def check_access_kernel(fs, k, forms):
             probs.append("writes the source: %r" % e)
         if e.kind == "write" and root_of(e.target) not in ("out", "sink"):
             probs.append("writes %s (not the output)" % show(e.target))
+    for e in k.effects:
+        if e.kind == "mutate" and root_of(e.target) in ("out", "sink"):
+            probs.append("the output is also written in bulk (%s) outside the element-wise gather: the elements placed that way are not the ones the index addresses one by one" % show(e.value)[:80])
     reads = [w for w in writes if "source" in roots_in(w.value)]
     if len(reads) != 1:
         probs.append("expected exactly one write that reads the source, found %d" % len(reads))
@@ -169,6 +172,12 @@ def check_access_kernel(fs, k, forms):
             return probs
     cls = [classify_component(c, w, k) for c in comps]
     fields_in_order = [f[0] for f in fs.fields]
+    # an index-vector / scalar gather must not be bypassed depending on the VALUES of the index (masks are conditions by nature)
+    if not any(c[0] == "B" for c in cls):
+        for cond in w.conds:
+            if any(r.startswith("ix") or r in ("ixes", "ix1", "ix2") for r in roots_in(cond)) and "elem" in str(cond):
+                probs.append("the element-wise gather only runs when `%s`: for the other index vectors the output is produced differently" % show(cond)[:90])
+                break
     for pos, (c, form) in enumerate(zip(cls, forms)):
         kind, fld, var = c
         if kind.startswith("BAD"):
